@@ -16,6 +16,14 @@ def run():
     sshard, n_s = termlib.string_mutation_cases(c, thorough)
     shards.append(sshard)
     c.extra["control_string_mutation_cases"] = n_s
+    # control strings that set up state for a later one (font DCS payload classes x sixel / text / resize): the loader driver's
+    # structured family, fed to the emulations as a terminal stream
+    fpath = os.path.join(c.workdir, "cases-fontdcs.ndjson")
+    rc, out = vlib.sh([vlib.BIN, "c02", "--dump-streams", fpath, "--seed", str(c.seed), "--tier", str(c.tier), "--faults", "/nonexistent"], cwd=vlib.ROOT, timeout=600)
+    if rc != 0:
+        raise vlib.ToolError("font DCS stream family failed: " + out[-800:])
+    shards.append(("fontdcs", fpath))
+    c.extra["font_dcs_stream_cases"] = sum(1 for _ in open(fpath))
     for i in range(n_shards):
         args = ["--gen", per, "--gen-from", i * per, "--seed", c.seed]
         if i % 2 == 1:
